@@ -1,37 +1,76 @@
 package main
 
-// mutation is a deliberate breakage applied to the source text of one file
-// before instrumentation (never to /repo itself): the sensitivity self-test
-// must see the matching check fail.
+// mutation is a deliberate breakage applied to the source text of files of
+// /repo before instrumentation (never to /repo itself): the sensitivity
+// self-test (`check selftest`) must see the matching check report a violation.
+type edit struct{ file, old, new string }
+
 type mutation struct {
 	property string
-	file     string
-	old, new string
+	edits    []edit
+}
+
+func one(prop, file, old, new string) mutation {
+	return mutation{prop, []edit{{file, old, new}}}
 }
 
 var mutations = map[string]mutation{
 	// C07
-	"c07-overread":     {"C07", "ttlv/io.go", "s.inner.Read(buf[read:need])", "s.inner.Read(buf[read:cap(buf)])"},
-	"c07-max-after":    {"C07", "ttlv/io.go", "if s.max > 0 && need > s.max {", "if s.max > 0 && read > s.max {"},
+	"c07-overread":      one("C07", "ttlv/io.go", "s.inner.Read(buf[read:need])", "s.inner.Read(buf[read:cap(buf)])"),
+	"c07-max-after":     one("C07", "ttlv/io.go", "if s.max > 0 && need > s.max {", "if s.max > 0 && read > s.max {"),
+	"c07-drop-with-eof": one("C07", "ttlv/io.go", "if err != nil && n == 0 {", "if err != nil {"),
+	// C08
+	"c08-no-recover":      one("C08", "kmipserver/router.go", "\t\terr := recover()\n\t\tif err == nil {\n\t\t\treturn\n\t\t}", "\t\tvar err any\n\t\tif err == nil {\n\t\t\treturn\n\t\t}"),
+	"c08-unbuffered-err":  one("C08", "kmipserver/conn.go", "errCh := make(chan error, 1)", "errCh := make(chan error)"),
+	"c08-close-tx":        one("C08", "kmipserver/conn.go", "\tc.tx.Store(chan txMsg(nil))\n", "\tif tx := c.tx.Swap(chan txMsg(nil)); tx != nil && tx != chan txMsg(nil) {\n\t\tclose(tx.(chan txMsg))\n\t}\n"),
+	"c08-no-stream-close": one("C08", "kmipserver/server.go", "\tdefer stream.Close()\n", "\tdefer func() { _ = stream }()\n"),
+	"c08-decode-err-drop": one("C08", "ttlv/io.go", "if err != nil && !IsErrEncoding(err) {", "if false {"),
 	// C09
-	"c09-stop-never":   {"C09", "kmipserver/router.go", "stopped = true", "stopped = false"},
-	"c09-no-id-echo":   {"C09", "kmipserver/router.go", "UniqueBatchItemID: req.BatchItem[i].UniqueBatchItemID,\n\t\t\t\tResultStatus:", "ResultStatus:"},
-	"c09-no-count":     {"C09", "kmipserver/router.go", "if int(req.Header.BatchCount) != len(req.BatchItem) {", "if false {"},
-	"c09-undo-ok":      {"C09", "kmipserver/router.go", "if co == kmip.BatchErrorContinuationOptionUndo {", "if false {"},
+	"c09-stop-never": one("C09", "kmipserver/router.go", "stopped = true", "stopped = false"),
+	"c09-no-id-echo": one("C09", "kmipserver/router.go", "UniqueBatchItemID: req.BatchItem[i].UniqueBatchItemID,\n\t\t\t\tResultStatus:", "ResultStatus:"),
+	"c09-no-count":   one("C09", "kmipserver/router.go", "if int(req.Header.BatchCount) != len(req.BatchItem) {", "if false {"),
+	"c09-undo-ok":    one("C09", "kmipserver/router.go", "if co == kmip.BatchErrorContinuationOptionUndo {", "if false {"),
 	// C10
-	"c10-no-lock":      {"C10", "kmipclient/client.go", "\tc.lock.Lock()\n\tdefer c.lock.Unlock()\n", ""},
-	"c10-no-terminate": {"C10", "kmipclient/conn.go", "\t\t// Close the client to cancel the operation on server\n\t\t_ = c.terminate(io.ErrClosedPipe)\n\t\treturn nil, ctx.Err()", "\t\treturn nil, ctx.Err()"},
+	"c10-no-lock":            one("C10", "kmipclient/client.go", "\tc.lock.Lock()\n\tdefer c.lock.Unlock()\n", ""),
+	"c10-no-terminate":       one("C10", "kmipclient/conn.go", "\t\t// Close the client to cancel the operation on server\n\t\t_ = c.terminate(io.ErrClosedPipe)\n\t\treturn nil, ctx.Err()", "\t\treturn nil, ctx.Err()"),
+	"c10-no-terminate-avail": one("C10", "kmipclient/conn.go", "\t\t_ = c.terminate(io.ErrClosedPipe)\n\t\treturn nil, err\n", "\t\treturn nil, err\n"),
 	// C11
-	"c11-retry-5":      {"C11", "kmipclient/client.go", "retry := 3", "retry := 5"},
-	"c11-no-reconnect": {"C11", "kmipclient/client.go", "if c.conn == nil || c.conn.broken() {", "if c.conn == nil {"},
-	"c11-close-noflag": {"C11", "kmipclient/client.go", "\tc.closed.Store(true)\n\tc.connLock.Lock()", "\tc.connLock.Lock()"},
+	"c11-retry-5":        one("C11", "kmipclient/client.go", "retry := 3", "retry := 5"),
+	"c11-no-reconnect":   one("C11", "kmipclient/client.go", "if c.conn == nil || c.conn.broken() {", "if c.conn == nil {"),
+	"c11-close-noflag":   one("C11", "kmipclient/client.go", "\tc.closed.Store(true)\n\tc.connLock.Lock()", "\tc.connLock.Lock()"),
+	"c11-unbuffered-err": one("C11", "kmipclient/conn.go", "errCh := make(chan error, 1)", "errCh := make(chan error)"),
 	// C12
-	"c12-no-count":     {"C12", "kmipclient/client.go", "if int(resp.Header.BatchCount) != len(resp.BatchItem) || len(resp.BatchItem) != len(payloads) {", "if len(resp.BatchItem) == 0 {"},
-	"c12-no-err":       {"C12", "kmipclient/client.go", "\tbi := resp[0]\n\tif err := bi.Err(); err != nil {\n\t\treturn nil, err\n\t}", "\tbi := resp[0]"},
-	// C20
-	"c20-clear-keeps-version": {"C20", "ttlv/encoder.go", "\tenc.extension.version = nil\n", ""},
-	"c20-cache-by-name":       {"C20", "ttlv/encoder.go", "if f, ok := encodeFuncsCache.Load(ty); ok {", "if f, ok := encodeFuncsCache.Load(ty.Kind()); ok && ty.Kind() == reflect.Struct {"},
+	"c12-no-count":  one("C12", "kmipclient/client.go", "if int(resp.Header.BatchCount) != len(resp.BatchItem) || len(resp.BatchItem) != len(payloads) {", "if len(resp.BatchItem) == 0 {"),
+	"c12-no-err":    one("C12", "kmipclient/client.go", "\tbi := resp[0]\n\tif err := bi.Err(); err != nil {\n\t\treturn nil, err\n\t}", "\tbi := resp[0]"),
+	"c12-unchecked": one("C12", "kmipclient/client.go", "\ttyped, ok := resp.(Resp)\n\tif !ok {", "\ttyped, ok := resp.(Resp), true\n\tif !ok {"),
 	// C13
-	"c13-fallback":     {"C13", "kmipclient/client.go", "if !slices.Contains(c.supportedVersions, kmip.V1_0) {", "if false {"},
-	"c13-first-listed": {"C13", "kmipclient/client.go", "if best == nil || ttlv.CompareVersions(v, *best) > 0 {", "if best == nil {"},
+	"c13-fallback":            one("C13", "kmipclient/client.go", "if !slices.Contains(c.supportedVersions, kmip.V1_0) {", "if false {"),
+	"c13-first-listed":        one("C13", "kmipclient/client.go", "if best == nil || ttlv.CompareVersions(v, *best) > 0 {", "if best == nil {"),
+	"c13-enforced-negotiates": one("C13", "kmipclient/client.go", "\tif c.version != nil {\n\t\treturn nil\n\t}\n\tmsg := kmip.NewRequestMessage(kmip.V1_1", "\tmsg := kmip.NewRequestMessage(kmip.V1_1"),
+	// C15
+	"c15-shared-batchdata": {"C15", []edit{
+		{"kmipserver/context.go", "\tbdata := &batchData{\n\t\theader: hdr,\n\t}\n", "\tbdata := &sharedBatchData\n\tbdata.header = hdr\n"},
+		{"kmipserver/context.go", "type ctxBatch struct{}\n", "type ctxBatch struct{}\n\nvar sharedBatchData batchData\n"},
+	}},
+	"c15-per-conn-batchdata": {"C15", []edit{
+		{"kmipserver/context.go", "\tbdata := &batchData{\n\t\theader: hdr,\n\t}\n", "\tbdata, _ := parent.Value(ctxBatch{}).(*batchData)\n\tif bdata == nil {\n\t\tbdata = &batchData{}\n\t}\n\tbdata.header = hdr\n"},
+		{"kmipserver/server.go", "\tctx := newConnContext(stream.ctx, conn.RemoteAddr().String(), tlsState)\n", "\tctx := newConnContext(stream.ctx, conn.RemoteAddr().String(), tlsState)\n\tctx = context.WithValue(ctx, ctxBatch{}, &batchData{})\n"},
+	}},
+	// C16
+	"c16-no-wait":         one("C16", "kmipserver/server.go", "\tsrv.wg.Wait()\n", "\t_ = srv.wg\n"),
+	"c16-terminate-early": one("C16", "kmipserver/server.go", "\tctx, err := srv.connectHook(ctx)\n\tif err != nil {", "\tdefer srv.terminateHook(ctx)\n\tctx, err := srv.connectHook(ctx)\n\tif err != nil {"),
+	"c16-serve-raw-error": one("C16", "kmipserver/server.go", "\t\t\tif errors.Is(err, net.ErrClosed) {\n\t\t\t\treturn ErrShutdown\n\t\t\t}\n", ""),
+	"c16-no-loop-wait":    one("C16", "kmipserver/conn.go", "\tc.loops.Wait()\n", ""),
+	"c16-no-accept-lock":  one("C16", "kmipserver/server.go", "\t\tif srv.shuttingDown {", "\t\tif false {"),
+	"c16-short-grace":     one("C16", "kmipserver/server.go", "time.AfterFunc(3*time.Second,", "time.AfterFunc(1*time.Second,"),
+	// C19
+	"c19-shared-cursor-client": one("C19", "kmipclient/client.go", "\t\t\tif i < len(c.middlewares) {\n\t\t\t\treturn c.middlewares[i](chain(i+1), ctx, req)\n\t\t\t}", "\t\t\tif i < len(c.middlewares) {\n\t\t\t\treturn c.middlewares[i](chain(len(c.middlewares)), ctx, req)\n\t\t\t}"),
+	"c19-original-req":         one("C19", "kmipserver/router.go", "return exec.middlewares[i](chain(i+1), ctx, rm)", "return exec.middlewares[i](chain(i+1), ctx, req)"),
+	"c19-item-reverse":         one("C19", "kmipserver/router.go", "return exec.biMiddlewares[m](chain(m+1), ctx, bi)", "return exec.biMiddlewares[len(exec.biMiddlewares)-1-m](chain(m+1), ctx, bi)"),
+	// C20
+	"c20-clear-keeps-version": one("C20", "ttlv/encoder.go", "\tenc.extension.version = nil\n", ""),
+	"c20-cache-by-name": {"C20", []edit{
+		{"ttlv/encoder.go", "if f, ok := encodeFuncsCache.Load(ty); ok {", "if f, ok := encodeFuncsCache.Load(ty.Kind().String() + ty.Name()); ok {"},
+		{"ttlv/encoder.go", "encodeFuncsCache.Store(ty, f)", "encodeFuncsCache.Store(ty.Kind().String()+ty.Name(), f)"},
+	}},
 }
